@@ -30,6 +30,10 @@ def glue_jobs(mode: str, tier: str, chunk: int = 40) -> List[Dict]:
     if tier == "quick":
         add(1, 6, 0, 1, 1, 200)
         add(2, 5, 1, 0, 0, 300)
+    elif mode == "C07":
+        add(1, 6, 0, 0, 1, 400)
+        add(2, 6, 1, 0, 1, 900)
+        add(3, 3, 0, 0, 0, 900)
     else:
         add(1, 6, 0, 2, 1, 400)
         add(2, 6, 1, 1, 1, 900)
